@@ -134,6 +134,20 @@ CLAIMED["C08"] = dict(
          "Model/Http1.v, translator facts, extraction + driver, harness door verif::http1",
     design="DESIGN.md 5 C08")
 
+CLAIMED["C17"] = dict(
+    text="Coq theorems on the model of ForwardedStreamSink's body states driven by SimplexPipe (Model/Forwarded.v) for ANY chunk-size-line "
+         "parser that is stable under extension and minimal: for every segmentation of the origin's stream and every partial-acceptance "
+         "pattern of the client sink the delivered bytes and the end state equal the byte-at-a-time reference (simulation by induction, "
+         "drive_sim); the reference removes chunked framing exactly (dechunk_all: any list of size-line/data chunks plus the zero chunk "
+         "yields the concatenated data and the end of body), delivers exactly n bytes for Content-Length n and everything for "
+         "close-delimited bodies; the model's hex/extension parser is proved to meet the hypotheses. Tied by translator facts "
+         "(ForwardedFacts.v) and by the differential run of the real into_forwarded pair + real DuplexPipe against an independent oracle for "
+         "request serialization, hop-by-hop filtering, interim responses, bodiless statuses and bodies",
+    note="partial: response-head parsing, request serialization and header filtering are checked by the differential run only; "
+         "httparse::parse_chunk_size is a parameter; known finding h2-request-body-unframed; trusted: Coq kernel, Model/Forwarded.v, "
+         "translator facts, extraction + driver, harness door verif::forwarded",
+    design="DESIGN.md 5 C17")
+
 PENDING_REASON = "check under construction in this round (designed in DESIGN.md, not yet wired into ./check)"
 
 
